@@ -548,6 +548,7 @@ var c10Paged = map[hackpadfs.File]bool{}
 
 func runC10(r *Rng, n int, replay string) {
 	defer runC10SrcDirFail(900000)
+	defer runC10WhileFilling(920000)
 	defer runC10DirSeq(r, n/4+20, 910000)
 	for id := 0; id < n; id++ {
 		es := genTree(r)
@@ -1523,6 +1524,92 @@ func runC11CrossNames(idBase int) {
 				c.Trivial = false
 				emit(c)
 			}
+		}
+	}
+}
+
+// runC10WhileFilling: transparency does not depend on who else is calling: while one Open is in the middle of copying a
+// retained file into the cache store (held inside its k-th Write there), a second Open of the same name, and a Stat, are
+// made from another goroutine.  Each call returns what the source holds (or an error) -- never fewer bytes.
+func runC10WhileFilling(idBase int) {
+	id := idBase
+	data := make([]byte, 1700)
+	for i := range data {
+		data[i] = byte(i*7 + 1)
+	}
+	for _, minimal := range []bool{false, true} {
+		for k := 0; k < 3; k++ {
+			fs := newMem()
+			_ = hackpadfs.WriteFullFile(fs, "f", data, 0o644)
+			src := newSrcFS(fs)
+			st, store := newStore(minimal)
+			cfs, _ := cache.NewReadOnlyFS(src, store, cache.ReadOnlyOptions{})
+			c := &Case{ID: id, Kind: "while-filling", Trivial: true}
+			id++
+			c.Cells = []string{fmt.Sprintf("while-filling/minimal=%v", minimal)}
+			hdr := fmt.Sprintf("source f (%d bytes); one Open is held in write %d of its copy into the cache store; meanwhile a second Open reads f and Stat is called", len(data), k)
+			c.Text = []string{hdr}
+			held := make(chan struct{})
+			resume := make(chan struct{})
+			var once sync.Once
+			st.writeHook = func(name string, idx int) {
+				if name == "f" && idx == k {
+					once.Do(func() {
+						close(held)
+						select {
+						case <-resume:
+						case <-time.After(2 * time.Second):
+						}
+					})
+				}
+			}
+			openRead := func(who string) {
+				defer func() { _ = recover() }()
+				f, err := cfs.Open("f")
+				if err != nil {
+					return
+				}
+				got, rerr := readAllOf(f)
+				closeIf(f)
+				if rerr == nil && !bytes.Equal(got, data) {
+					c.fail(fmt.Sprintf("%s: %s yields %d of the source's %d bytes", hdr, who, len(got), len(data)), "while-filling:partial")
+				}
+			}
+			done1 := make(chan struct{})
+			go func() { defer close(done1); openRead("the open that fills the cache") }()
+			select {
+			case <-held:
+				done2 := make(chan struct{})
+				go func() {
+					defer close(done2)
+					if info, err := hackpadfs.Stat(cfs, "f"); err == nil && info.Size() != int64(len(data)) {
+						c.fail(fmt.Sprintf("%s: Stat reports %d bytes", hdr, info.Size()), "while-filling:stat")
+					}
+					openRead("the second open")
+				}()
+				select {
+				case <-done2:
+				case <-time.After(300 * time.Millisecond): // (it waits for the fill: fine)
+				}
+				close(resume)
+				select {
+				case <-done2:
+				case <-time.After(5 * time.Second):
+					c.fail(hdr+": the second open never returned", "while-filling:hang")
+				}
+			case <-done1:
+				close(resume)
+			case <-time.After(3 * time.Second):
+				close(resume)
+			}
+			select {
+			case <-done1:
+			case <-time.After(5 * time.Second):
+				c.fail(hdr+": the filling open never returned", "while-filling:hang")
+			}
+			st.writeHook = nil
+			openRead("a later open")
+			emit(c)
 		}
 	}
 }
